@@ -491,7 +491,7 @@ class C03(ProverCheck):
     budget = {"quick": 500, "thorough": 20000}
     kinds = ["lt", "le", "eq", "ne", "gt", "ge", "zero", "nonzero", "positive", "positive_n", "range",
              "range_secret", "tobool", "bits_n", "bool_cmp", "fxp_cmp", "fxp_range", "gt", "lt", "positive_n",
-             "range"]
+             "range", "bool_vs_int", "boolop_int"]
     rule = ("one assertion or type declaration per plan (assert_lt/le/eq/ne/gt/ge on integer, boolean and "
             "fixed-point operands with secret and constant right-hand sides, assert_zero/nonzero, "
             "assert_positive with and without an explicit width, assert_range with constant and secret "
@@ -552,6 +552,15 @@ class C03(ProverCheck):
             stmt = {"s": "assert", "kind": rng.choice(list(ASSERT_CMP_KINDS)),
                     "args": [{"ref": 0, "t": "B"}, {"ref": 1, "t": "B"}]}
             vectors = [[0, 0], [0, 1], [1, 0], [1, 1]]
+        elif kind in ("bool_vs_int", "boolop_int"):
+            # a raw secret integer used where a boolean is expected: declared boolean on the fly
+            inputs = [{"kind": "priv", "t": "B", "v": 0}, {"kind": "priv", "t": "I", "v": 0}]
+            Bref, Iref = {"ref": 0, "t": "B"}, {"ref": 0, "t": "I"}
+            if kind == "bool_vs_int":
+                stmt = {"s": "assert", "kind": rng.choice(list(ASSERT_CMP_KINDS)), "args": [Bref, Iref]}
+            else:
+                stmt = {"s": "let", "e": {"op": rng.choice(["&", "|", "^", "==", "!="]), "a": Bref, "b": Iref, "t": "B"}}
+            vectors = [[b, x] for b in (0, 1) for x in (0, 1, 2, -1, 7)]
         elif kind in ("fxp_cmp", "fxp_range"):
             res = cfg["resolution"]
             u = 1.0 / (1 << res)
@@ -582,6 +591,8 @@ class C03(ProverCheck):
                 d["width"] = "explicit"
             return d
         e = s["e"]
+        if "op" in e:
+            return {"op": e["op"], "kinds": kd(e["a"]) + "," + kd(e["b"])}
         d = {"op": e["call"], "kinds": ",".join(kd(a) for a in e["args"])}
         if e.get("n") is not None:
             d["width"] = "explicit"
@@ -1960,14 +1971,27 @@ class BlockGen:
         self.r = rng
         self.cfg = cfg
         self.names = ["x%d" % i for i in range(rng.randrange(1, 4))]
+        # list-valued tracked variables (flat and nested), assigned cell by cell inside blocks
+        self.lists = {}
+        if rng.random() < 0.45:
+            self.lists["l0"] = [rng.randrange(2, 4)]
+        if rng.random() < 0.5:
+            self.lists["m0"] = [2, rng.randrange(1, 3)]
         self.n_inputs = 0
         self.loopvars = []
         self.depth = 0
         self.lvn = 0
 
+    def cell(self):
+        nm = self.r.choice(sorted(self.lists))
+        return nm, [self.r.randrange(d) for d in self.lists[nm]]
+
     def leaf(self):
         r = self.r
         u = r.random()
+        if self.lists and u < 0.12:
+            nm, path = self.cell()
+            return {"tv": nm, "path": path}
         if u < 0.45:
             return {"tv": r.choice(self.names)}
         if u < 0.6 and self.loopvars:
@@ -2006,6 +2030,9 @@ class BlockGen:
         r = self.r
         u = r.random()
         if self.depth >= self.cfg.get("max_nesting", 2) or u < 0.5:
+            if self.lists and r.random() < 0.45:
+                nm, path = self.cell()
+                return {"s": "track", "name": nm, "path": path, "e": self.expr()}
             return {"s": "track", "name": r.choice(self.names), "e": self.expr()}
         self.depth += 1
         try:
@@ -2043,6 +2070,15 @@ class BlockGen:
         for nm in self.names:
             e = {"ref": r.randrange(0, 8), "t": "I"} if r.random() < 0.5 else {"k": r.choice([0, 1, 2, 3, 10])}
             body.append({"s": "tracked_init", "name": nm, "e": e})
+        for nm in sorted(self.lists):
+            dims = self.lists[nm]
+
+            def lit(d):
+                if len(d) == 1:
+                    return {"list": [({"ref": r.randrange(0, 8), "t": "I"} if r.random() < 0.4 else
+                                      {"k": r.choice([0, 1, 2, 3, 9])}) for _ in range(d[0])]}
+                return {"list": [lit(d[1:]) for _ in range(d[0])]}
+            body.append({"s": "tracked_init", "name": nm, "e": lit(dims)})
         for _ in range(r.randrange(1, 5)):
             body.append(self.stmt())
         return {"cfg": self.cfg, "inputs": inputs, "body": body, "blocks": True}
